@@ -28,7 +28,7 @@ def build(p, seed):
     from xrfm import xRFM
     kw = dict(rfm_params=xc.rfm_params(p['kernel'], diag=p['diag'], iters=p['iters'], bandwidth_mode=p['bandwidth_mode']),
               max_leaf_size=p['max_leaf_size'], device='cpu', verbose=False, random_state=seed, n_trees=p['n_trees'],
-              n_tree_iters=p.get('n_tree_iters', 0),
+              n_tree_iters=p.get('n_tree_iters', 0), number_of_splits=p.get('number_of_splits'),
               split_method=p['split_method'], refill_size=p['refill_size'], tuning_metric=p['tuning_metric'],
               classification_mode=p['classification_mode'], use_temperature_tuning=p['tuning'],
               split_temperature=p['split_temperature'])
@@ -247,6 +247,9 @@ def gen_cases(run):
         dict(split_method='top_pc_agop_on_subset', task='reg2', n=50, diag=True, kernel='l2_high_dim', refill_size=6),
         dict(split_method='random_agop_on_subset', task='reg1', n=70, kernel='lpq', split_temperature=0.3),
         dict(split_method='random_pca', task='bin', n=30, max_leaf_size=40, bandwidth_mode='adaptive'),  # single leaf, adaptive
+        # forced splits (number_of_splits): the split counter is per tree and per fit, also when the data would fit one leaf
+        dict(split_method='random', task='reg1', n=36, max_leaf_size=40, number_of_splits=2),
+        dict(split_method='top_vector_agop_on_subset', task='bin', n=40, max_leaf_size=60, number_of_splits=1, n_trees=2),
     ]
     reps = 2 if quick else 30
     for rep in range(reps):
@@ -284,6 +287,8 @@ def gen_cases(run):
         dict(split_method='random', task='reg2', n=70, tuning=True, n_tree_iters=2, d=3),
         dict(split_method='random', task='reg2', n=90, tuning=True, n_tree_iters=1, kernel='l2_high_dim'),
         dict(split_method='random_global_agop', task='reg2', n=80, tuning=True, n_tree_iters=2),
+        dict(split_method='pca', task='reg1', n=36, max_leaf_size=40, number_of_splits=2, tuning=False),   # forced splits
+        dict(split_method='random', task='reg2', n=36, max_leaf_size=40, number_of_splits=1, tuning=True, n_tree_iters=1),
     ]
     for rep in range(reps):
         for k, cfg in enumerate(hist_cfgs):
